@@ -71,6 +71,12 @@ def skeleton(fn):
         pa = fn.pos(adv[0][0])
         sk['order_ok'] = fn.block_of(sk['after_assign']) in fn.reach([pa[0]]) and \
             fn.block_of(adv[0][0]) in fn.reach([fn.block_of(b)]) and fn.line_of(b) < fn.line_of(adv[0][0]) <= fn.line_of(a)
+    # the bookkeeping behind a field is done for every field of the part that was passed without an error
+    if sk.get('after_assign'):
+        import re
+        sk['after_extra'] = sorted(k for k, p in set((x[0], x[1]) for x in fn.atoms(sk['after_assign']))
+                                   if 'getPartType' not in k and '__begin' not in k and '__end' not in k and
+                                   not (re.match(r'^\(\w+ < #0\)$', k) and not p) and not (re.match(r'^\(\w+ == #0\)$', k) and p))
     # part filter
     parts = [x for x in fn.all('BinaryOperator') if fn.nodes[x].get('op') in ('==', '!=') and 'getPartType()' in fn.key(x)]
     sk['part_filter'] = [fn.key(x) for x in parts]
@@ -123,6 +129,8 @@ def r1(ctx):
                 problems.append('%d cursor advances (expected 1)' % len(sk.get('advance', [])))
             elif 'getLength(' not in sk['advance'][0][1] and 'fieldLength' not in sk['advance'][0][1]:
                 problems.append('cursor advanced by %s instead of the field length' % sk['advance'][0][1])
+            if sk.get('after_extra'):
+                problems.append('the bookkeeping behind a field depends on %s' % sk['after_extra'])
             if not sk.get('order_ok'):
                 problems.append('order of decrement / advance / after-bookkeeping differs')
             if not sk.get('part_filter'):
